@@ -689,6 +689,63 @@ func genReopen(c *hx.Ctx) []*scriptScn {
 	return out
 }
 
+// Deadlines armed on ONE logical connection (expired already, or expiring during a pause) must not disturb the
+// others: the trunk is shared, Set*Deadline of a multiplexed connection are no-ops.  Traffic on the other ids in
+// both directions follows and has to arrive; the closes at the end are orderly.
+func genDeadline(c *hx.Ctx) []*scriptScn {
+	var out []*scriptScn
+	ids := []uint32{1, 2, 3}
+	for _, transport := range []string{"unix", "pipe"} {
+		for side := 0; side < 2; side++ {
+			for kind := 0; kind < 3; kind++ {
+				for when := 0; when < 2; when++ {
+					for early := 0; early < 2; early++ {
+						if c.Quick() && transport == "pipe" && (kind+when+early+side)%2 == 1 {
+							continue
+						}
+						b := newBuilder("muxfault_deadline", transport, 256, ids, ids)
+						ms, note := -1000, "already expired"
+						if when == 1 {
+							ms, note = 3, "expiring during a pause"
+						}
+						b.s.Note = fmt.Sprintf("deadline kind %d on id 1 at side %d, %s, before any traffic=%v", kind, side, note, early == 1)
+						arm := func(sd int, id uint32, k int) {
+							b.add(act{Op: "deadline", Side: sd, ID: id, Mode: k, N: ms})
+							if when == 1 {
+								b.add(act{Op: "pause", Side: sd, N: 60})
+							}
+						}
+						if early == 0 {
+							b.write(1-side, 2, 5)
+							b.readOrBg(side, 2)
+						}
+						arm(side, 1, kind)
+						// the peer writes to the other connections; the end that armed the deadline reads them and answers
+						b.write(1-side, 2, 9)
+						b.write(1-side, 3, 0)
+						b.write(1-side, 2, 33)
+						b.readOrBg(side, 2)
+						b.readOrBg(side, 3)
+						b.readOrBg(side, 2)
+						b.write(side, 3, 7)
+						b.write(side, 1, 2)
+						b.readOrBg(1-side, 3)
+						b.readOrBg(1-side, 1)
+						// a second deadline, of another kind, at the other end, then more traffic both ways
+						arm(1-side, 3, (kind+1)%3)
+						b.write(side, 2, 4)
+						b.readOrBg(1-side, 2)
+						b.write(1-side, 1, 6)
+						b.readOrBg(side, 1)
+						out = append(out, b.finish())
+					}
+				}
+			}
+		}
+	}
+	return out
+}
+
 // ---------------------------------------------------------------- listener wrapper
 
 func genListener(c *hx.Ctx) []*scriptScn {
@@ -755,7 +812,7 @@ func driveFault(c *hx.Ctx) error {
 		f    func(*hx.Ctx) []*scriptScn
 	}{{"muxfault_cut", genCut}, {"muxfault_overflow", genOverflow}, {"muxfault_close", genClose},
 		{"muxfault_closers", genClosers}, {"muxfault_blocked", genBlocked}, {"muxfault_raw", genRaw},
-		{"muxfault_open", genOpen}, {"muxfault_reopen", genReopen}, {"muxfault_listener", genListener}}
+		{"muxfault_open", genOpen}, {"muxfault_reopen", genReopen}, {"muxfault_deadline", genDeadline}, {"muxfault_listener", genListener}}
 	var all []*scriptScn
 	for _, sc := range corpus(c, "C11") {
 		all = append(all, sc.S)
@@ -801,6 +858,7 @@ func driveFault(c *hx.Ctx) error {
 		"muxfault_open: Mux.Open of a new id, of the reserved id and of an open id after Close, after the peer closed, after a transport failure at either end, after a Write cut inside a payload, after a queue overflow and next to a conn.Close, at either end, and 1..16 Opens racing with Close; every Read and Write on the new connections must fail promptly on a closed Mux and carry data on a healthy one; " +
 		"muxfault_reopen: on one id (a sibling id untouched): conn.Close, Open again (a new connection object), Close of the OLD handle once or twice more, optionally data over the replacement, then Mux.Close / the peer's Close / a transport failure at either end with a Read pending on the replacement or issued later; " +
 		"an act that depends on an Open that hung or failed is skipped, the hang itself is the observation; " +
+		"muxfault_deadline: SetDeadline / SetReadDeadline / SetWriteDeadline on one logical connection at either end, already expired or expiring during a 60 ms pause, before and between traffic on the OTHER connections in both directions, which has to arrive; a second deadline of another kind at the other end; orderly closes at the end (unix socketpair, which honours deadlines on the trunk, and the in-memory pipe); " +
 		"muxfault_listener: every sequence of Accept/Close up to length 4 (thorough 7) on the listener wrapper. " +
 		"In three of five cut scenarios the failing trunk.Write returns a net.Error (Timeout or Temporary) and, when it was partial, the trunk takes bytes again afterwards (an expired write deadline, the peer drains again): the Writes that follow on other ids must fail all the same, a partial write is fatal whatever the error's type. " +
 		"A cut fails the outgoing direction of one end after an exact number of bytes (the failing trunk.Write returns the n bytes that still went out); after every fault the script waits until each Mux that has to close itself has closed its trunk, so that later calls do not race with its reader. Every call runs under a 20 s bound (1 s for the rest of a scenario once a call has hung; a hung scenario is run again alone before it is reported); a script ends with Close at both ends, a drain of every connection (Reads until 64 consecutive errors) and one more Write. Non-trivial: a fault was injected and at least one call was made after it. Compared in Coq: every call's result class and payload against the model replayed on the same script (select choices taken from the observation), the recorded trunk bytes, and the property's predicate on the observation."
